@@ -141,6 +141,7 @@ func cmdCheck(args []string) int {
 	if *tier == "thorough" && !*noCorpus && len(ov) == 0 {
 		r.Corpus = runCorpus(d.ID, *repo, *verif, seed)
 	}
+	r.ApplyVacuity()
 	if len(ov) > 0 || *failKeys {
 		// corpus mode: print failing keys for the parent process
 		for _, k := range r.FailKeys() {
